@@ -19,6 +19,7 @@ POPULATIONS = [
      'milestone': [False, False, True, False], 'tag': ['', ABSENT, 'ab', None], 'num': [0, 2, ABSENT, 0], 'ticket_id': ['', 'ba', None, 'ab']},
 ]
 STR_ATTRS = ['name', 'resource', 'tag', 'ticket_id']
+NAN = float('nan')
 NUM_ATTRS = ['estimate', 'spent', 'num', 'id', 'parent_id']
 STR_VALUES = ['ab', 'ba', 'zz', '']
 NUM_VALUES = [2, 5, 3, 0]
@@ -244,6 +245,44 @@ def restate_checks(acc):
                                   f'after changing {attr}: tasks({f[0]}={f[1]!r}) selected {[g + 1 for g in got]}, reference {[e + 1 for e in exp]}', case)
 
 
+def partial_order_checks(acc):
+    """Comparison filters on values that are not totally ordered: sets (neither <= nor >= for overlapping sets) and NaN.
+    `x_le_=v` selects the tasks with x <= v - not the tasks for which x > v is false."""
+    import operator
+    from pjplan import Task, WBS
+    tagsets = [frozenset({'api'}), frozenset({'api', 'db'}), frozenset({'db'}), None, frozenset()]
+    nums = [NAN, 2, 5, None, 0]
+    ops_ = {'_lt_': operator.lt, '_le_': operator.le, '_gt_': operator.gt, '_ge_': operator.ge}
+    w = WBS()
+    objs = []
+    for i in range(5):
+        kw = {}
+        if tagsets[i] is not None:
+            kw['tags'] = set(tagsets[i])
+        if nums[i] is not None:
+            kw['num'] = nums[i]
+        t = Task(i + 1, 'n%d' % i, **kw)
+        objs.append(t)
+        w.roots.append(t)
+    for suf, fn in ops_.items():
+        for v in (frozenset({'db'}), frozenset({'api', 'db'}), frozenset()):
+            exp = [k for k in range(5) if tagsets[k] is not None and fn(tagsets[k], v)]
+            got = [objs.index(t) for t in w.tasks(**{'tags' + suf: set(v)})]
+            acc.count('evaluations')
+            acc.count('nontrivial')
+            if got != exp:
+                acc.violation('C18', f'query/wrong-selection/{suf}/partially-ordered-values',
+                              f'tasks(tags{suf}={set(v)!r}) selected {[g + 1 for g in got]}, reference {[e + 1 for e in exp]}', {'values': 'sets'})
+        for v in (2, 3, NAN):
+            exp = [k for k in range(5) if nums[k] is not None and fn(nums[k], v)]
+            got = [objs.index(t) for t in w.tasks(**{'num' + suf: v})]
+            acc.count('evaluations')
+            acc.count('nontrivial')
+            if got != exp:
+                acc.violation('C18', f'query/wrong-selection/{suf}/nan',
+                              f'tasks(num{suf}={v!r}) selected {[g + 1 for g in got]}, reference {[e + 1 for e in exp]}', {'values': 'nan'})
+
+
 def run(rep):
     global _TIER
     _TIER = rep.tier
@@ -251,6 +290,7 @@ def run(rep):
     k = nw * 2
     runtime.run_chunks(_work, [(i, k) for i in range(k)], rep.acc)
     restate_checks(rep.acc)
+    partial_order_checks(rep.acc)
     c = rep.acc.counters
     rep.coverage.update({
         'evaluations': c['evaluations'], 'distinct_nontrivial': c['nontrivial'], 'requery_after_change': c['requery_after_change'],
